@@ -833,10 +833,9 @@ def _nbatch(o):
 def image_ops(kind, D, rnd):
     """(tokens, action, arg index); `{n}` in tokens is replaced by the batch size of the receiver"""
     batch = kind in ("batch", "flowfields")
-    fl = "1" if kind.startswith("flow") else "0"
     ops = [
-        (f"bgrid {fl} {{n}}" if batch else f"igrid {fl}", lambda x, g: x.grid(g), 1),
-        (f"ishallow {fl}", lambda x, g: pycopy.copy(x), None),
+        ("bgrid {n}" if batch else "igrid", lambda x, g: x.grid(g), 1),
+        ("ishallow", lambda x, g: pycopy.copy(x), None),
         ("bdeep {n}" if batch else "ideep", lambda x, g: pycopy.deepcopy(x), None),
         ("bgridset {n}" if batch else "igridset", lambda x, g: x.grid_(g), 1),
         ("ipoke", lambda x, g: (x.add_(0.5), x)[1], None),
@@ -906,8 +905,7 @@ def build_image_scenario(c) -> Scenario:
             structural = [o for o in ops if o[0] != "ifun"][:6]
             toks, action, ai = structural[pick_op % len(structural)]
         steps.append((objs[pick_obj % len(objs)], ai, toks.replace("{n}", str(nb)), action))
-        known_to_raise = kind.startswith("flow") and toks.startswith(("bgrid ", "igrid ", "ishallow"))
-        if not toks.startswith(("igridset", "bgridset", "ipoke")) and not known_to_raise:
+        if not toks.startswith(("igridset", "bgridset", "ipoke")):
             objs.append(len(pool) + len(objs) - 1)
     return Scenario(pool, steps)
 
